@@ -145,7 +145,7 @@ PROPS = {
     ),
     'C05': dict(
         level='proof',
-        verus_units=['broker_channel', 'broker_handlers_channel'],
+        verus_units=['broker_channel', 'broker_handlers_channel', 'broker_conn_id'],
         trusted_base=TB_VERUS + TB_CONN + ['std::mem::replace specification'],
         assumptions=[
             'callers (Broker::{send_item, add_channel_capacity, claim_channel_end, close_channel_end, '
